@@ -28,6 +28,7 @@ pub struct Block {
     pub align: usize,
     pub live: bool,
     pub id: usize,
+    pub foreign: bool, // allocated for the harness's own argument (an iterator item), not by the call under test
 }
 
 #[derive(Default)]
@@ -45,6 +46,8 @@ pub struct Shim {
     pub record_events: bool,
     pub tracked: Option<(usize, usize, usize)>, // the shared block of pipeline D: user address, size, id
     pub heap_log: Option<Vec<Ev>>, // every event, across calls (for the buffer-protocol monitor)
+    pub foreign_mode: bool,
+    pub foreign_seq: usize,
     pub purge_at: usize,   // > 0: once this many blocks are known, the dead ones are checked and given back
 }
 
@@ -63,6 +66,7 @@ pub struct Ev {
 pub static SHIM: Mutex<Option<Shim>> = Mutex::new(None);
 
 fn with<R>(f: impl FnOnce(&mut Shim) -> R) -> R {
+    let _p = crate::gate::Paused::new(); // the shim's own bookkeeping is not the crate's allocation
     let mut g = SHIM.lock().unwrap_or_else(|e| e.into_inner());
     f(g.get_or_insert_with(Shim::default))
 }
@@ -161,7 +165,7 @@ impl Shim {
 
 unsafe fn sh_alloc(l: Layout) -> *mut u8 {
     with(|s| {
-        if s.request_refused(l.size()) {
+        if !s.foreign_mode && s.request_refused(l.size()) {
             s.ev("alloc", "fail", l.size(), 0, 0);
             return std::ptr::null_mut();
         }
@@ -170,8 +174,18 @@ unsafe fn sh_alloc(l: Layout) -> *mut u8 {
         }
         let user = unsafe { s.raw_alloc(l.size(), l.align()) };
         let id = s.lowest_free_id();
-        s.blocks.insert(user, Block { user, size: l.size(), align: l.align(), live: true, id });
-        s.n_alloc += 1;
+        let foreign = s.foreign_mode;
+        // (foreign blocks are numbered from 1000 on: they do not take part in the lowest-free numbering the model predicts)
+        let id = if foreign {
+            s.foreign_seq += 1;
+            1000 + s.foreign_seq
+        } else {
+            id
+        };
+        s.blocks.insert(user, Block { user, size: l.size(), align: l.align(), live: true, id, foreign });
+        if !foreign {
+            s.n_alloc += 1;
+        }
         s.ev("alloc", "", l.size(), id, user);
         user as *mut u8
     })
@@ -195,7 +209,9 @@ unsafe fn sh_dealloc(p: *mut u8, l: Layout) {
                     s.err(format!("canary:block#{} guard zone damaged", b.id));
                 }
                 s.retire(user);
-                s.n_dealloc += 1;
+                if !b.foreign {
+                    s.n_dealloc += 1;
+                }
                 s.ev("dealloc", "", b.size, b.id, b.user);
             }
         }
@@ -227,7 +243,7 @@ unsafe fn sh_realloc(p: *mut u8, l: Layout, n: usize) -> *mut u8 {
         let nu = unsafe { s.raw_alloc(n, l.align()) };
         unsafe { std::ptr::copy_nonoverlapping(user as *const u8, nu as *mut u8, b.size.min(n)) };
         s.retire(user);
-        s.blocks.insert(nu, Block { user: nu, size: n, align: l.align(), live: true, id: b.id });
+        s.blocks.insert(nu, Block { user: nu, size: n, align: l.align(), live: true, id: b.id, foreign: b.foreign });
         s.n_realloc += 1;
         s.ev("realloc", "", n, b.id, b.user);
         nu as *mut u8
@@ -379,6 +395,14 @@ pub fn heap_log_start() {
 }
 pub fn heap_log_take() -> Vec<Ev> {
     with(|s| s.heap_log.as_mut().map(std::mem::take).unwrap_or_default())
+}
+/// Builds an argument of the call under test (an iterator item that is itself a LeanString): its buffer is tracked, but it
+/// is neither a request of the call (not counted, never refused) nor its release one of the call's.
+pub fn foreign<R>(f: impl FnOnce() -> R) -> R {
+    with(|s| s.foreign_mode = true);
+    let r = f();
+    with(|s| s.foreign_mode = false);
+    r
 }
 pub fn take_errors() -> Vec<String> {
     with(|s| std::mem::take(&mut s.errors))
